@@ -29,10 +29,10 @@ namespace {
 
 const std::uintptr_t RES_BASE = 0x520000000000ull;
 const std::size_t GiB = 1ull << 30;
-const std::size_t RES_SIZE = 17 * GiB;
+const std::size_t RES_SIZE = 21 * GiB;
 const std::size_t PG = 4096;
 const unsigned WPAGES = 8;
-const std::uintptr_t WIN = RES_BASE + 8 * GiB + 512 * PG;       // guest view of the window
+const std::uintptr_t WIN = RES_BASE + 12 * GiB - 4 * PG;        // guest view of the window; the boundary between its pages 3 and 4 is a multiple of 2^32 (address arithmetic done in 32 bits shows there)
 const std::size_t WBYTES = WPAGES * PG;
 const std::uintptr_t STACK_BASE = 0x530000000000ull;            // fixed engine stack: replay-stable addresses
 const std::size_t STACK_SIZE = 16 << 20;
@@ -753,7 +753,7 @@ struct MemEngine : Engine {
             }
         }
         if (c20 || prop.empty()) {
-            for (unsigned w = 0; w < 2; ++w) for (unsigned lv = 0; lv < 3; ++lv) for (unsigned form = 0; form < 6; ++form) for (unsigned nc = 0; nc < 10; ++nc) for (unsigned pc = 0; pc < 9; ++pc) pfsweep.push_back({w * 3 + lv, form, nc, pc});
+            for (unsigned w = 0; w < 2; ++w) for (unsigned lv = 0; lv < 3; ++lv) for (unsigned form = 0; form < 6; ++form) for (unsigned nc = 0; nc < 10; ++nc) for (unsigned pc = 0; pc < 13; ++pc) pfsweep.push_back({w * 3 + lv, form, nc, pc});
         }
     }
     // streaming sequences for prefetch: consecutive requests, each starting exactly where the previous one ended, walking
@@ -858,7 +858,11 @@ struct MemEngine : Engine {
             case 5: s.set("ptr", "null"); break;
             case 6: s.set("ptr", "raw"); s.setu("addr", RES_BASE + GiB + (salt % 4096)); break;          // reserved, inaccessible, far away
             case 7: s.set("ptr", "raw"); s.setu("addr", 0x10 + (salt % 64)); break;                      // near-null
-            default: s.set("ptr", "raw"); s.sethex("addr", 0x00007ffffffff000ull + (salt % 4096)); break; // top of user space
+            case 8: s.set("ptr", "raw"); s.sethex("addr", 0x00007ffffffff000ull + (salt % 4096)); break; // top of user space
+            case 9: s.set("ptr", "win"); s.setu("p", 4 * PG - 1 - (salt % 64)); pages = "WWWWWWWW"; break;  // wholly valid range that contains a multiple of 2^32
+            case 10: s.set("ptr", "raw"); s.setu("addr", RES_BASE + 2 * GiB - 1 - (salt % 64)); break;     // inaccessible range containing a multiple of 2^31
+            case 11: s.set("ptr", "raw"); s.sethex("addr", 0xffffffffffffffffull - (salt % 64)); break;     // range wraps around the top of the address space
+            default: s.set("ptr", "raw"); s.sethex("addr", 0xffff800000000000ull - 1 - (salt % 64)); break; // non-canonical, ends in the kernel half
         }
         s.set("pages", pages);
     }
@@ -899,7 +903,7 @@ struct MemEngine : Engine {
             if (c20 && !r.chance(1, 6)) {
                 Step s; s.op = "prefetch"; s.setu("w", r.below(2)); s.setu("level", r.below(3)); s.set("form", pf_form((unsigned)r.below(6)));
                 unsigned nc = (unsigned)r.below(12); std::size_t n = nc < 10 ? pf_n(nc, r.below(64)) : (std::size_t)r.below(30000); if (s.str("form") == "typed3") n /= 32; s.setu("n", n);
-                pf_pointer(s, (unsigned)r.below(9), r.next() % 100000); s.setu("poison", r.chance(1, 2) ? r.below(250) + 1 : 0);
+                pf_pointer(s, (unsigned)r.below(13), r.next() % 100000); s.setu("poison", r.chance(1, 2) ? r.below(250) + 1 : 0);
                 bool neigh = s.str("ptr") == "win" && r.chance(1, 3) && n <= 512; s.set("fault", neigh ? "neigh" : "none"); if (neigh) { s.setu("k", r.below(4096)); s.setu("ntag", r.below(1u << 20)); }
                 // random page map variations
                 if (r.chance(1, 3)) { std::string pg = "WWWWWWWW"; for (auto& ch : pg) { unsigned x = (unsigned)r.below(8); ch = x < 4 ? 'W' : x == 4 ? 'N' : x == 5 ? 'R' : x == 6 ? 'H' : 'W'; } s.set("pages", pg); }
